@@ -26,8 +26,34 @@ def written_flags(repo, sources):
     return out
 
 
+def joined_flags(repo, sources):
+    """(flag, delimiter) for every top-level block of a writer that pushes exactly one `--flag` literal and builds a value with
+    `.join("<delimiter>")`: several values written as ONE argument"""
+    out = []
+    for (rel, qual) in sources:
+        src = open(os.path.join(repo, rel)).read()
+        toks = lex(src)
+        loc = locate(toks, qual)
+        if loc is None:
+            continue
+        open_i, close_i = loc[1], loc[2]
+        k = open_i + 1
+        while k < close_i:
+            if toks[k].text == "{":
+                e = match_close(toks, k)
+                fl = [t.text[1:-1] for t in toks[k:e] if t.kind == "str" and t.text.startswith('"--')]
+                js = [toks[j + 3].text[1:-1] for j in range(k, e - 3) if toks[j].text == "." and toks[j + 1].text == "join" and toks[j + 2].text == "(" and toks[j + 3].kind == "str"]
+                if len(fl) == 1 and len(set(js)) == 1:
+                    out.append((fl[0], js[0], f"{rel} {qual}"))
+                k = e + 1
+                continue
+            k += 1
+    return out
+
+
 def declared_flags(repo, items):
     flags, unknown = set(), []
+    delim = {}      # flag -> value_delimiter character (or None)
     for (rel, name) in items:
         src = open(os.path.join(repo, rel)).read()
         toks = lex(src)
@@ -78,6 +104,7 @@ def declared_flags(repo, items):
                                 p += 1
                             if "long" not in keys:
                                 continue
+                            before = set(flags)
                             def lit(v):
                                 return v[0].text[1:-1] if v and len(v) == 1 and v[0].kind == "str" else None
                             if keys["long"] is not None:
@@ -104,6 +131,15 @@ def declared_flags(repo, items):
                             for kk in ("aliases", "visible_aliases"):
                                 if kk in keys:
                                     unknown.append(f"{rel} {name}.{field}: `{kk}`")
+                            vd = None
+                            if keys.get("value_delimiter"):
+                                v = keys["value_delimiter"]
+                                if len(v) == 1 and len(v[0].text) >= 3 and v[0].text[0] in "'\"":
+                                    vd = v[0].text[1:-1]
+                                else:
+                                    unknown.append(f"{rel} {name}.{field}: value_delimiter = <non-literal>")
+                            for fl in set(flags) - before:
+                                delim[fl] = vd
                         pending = []
                         # skip the field's type up to the comma at depth 0 (or a variant's brace block)
                     if toks[k].text in "([{":
@@ -116,22 +152,26 @@ def declared_flags(repo, items):
             i += 1
         if not found:
             raise LookupError(f"{name} not found in {rel}")
-    return flags, unknown
+    return flags, unknown, delim
 
 
 def check(repo, co):
     """returns (status, detail) with status in ok / violation / undecided"""
     try:
         w = written_flags(repo, [tuple(x) for x in co["writers"]])
-        d, unknown = declared_flags(repo, [tuple(x) for x in co["declared_in"]])
+        d, unknown, delim = declared_flags(repo, [tuple(x) for x in co["declared_in"]])
+        joined = joined_flags(repo, [tuple(x) for x in co["writers"]])
     except (LookupError, OSError, Exception) as e:   # noqa
         return "undecided", f"clap_flags: {e}"
     missing = sorted(f for f in w if f not in d)
     if unknown:
         return "undecided", "clap_flags: attribute shapes not understood: " + "; ".join(unknown[:4])
+    bad_join = [f"{fl} (values joined with '{dl}' in {where}, declared value_delimiter: {delim.get(fl)!r})" for (fl, dl, where) in joined if fl in d and delim.get(fl) != dl]
+    if not missing and bad_join and not unknown:
+        return "violation", "several values are written as one argument joined by a delimiter the node does not split on: " + "; ".join(bad_join)
     if missing:
         return "violation", "written but not declared as a long option of the node: " + ", ".join(f"{m} (written in {w[m][0]})" for m in missing)
-    return "ok", f"{len(w)} written flags, all among {len(d)} declared long options"
+    return "ok", f"{len(w)} written flags, all among {len(d)} declared long options; {len(joined)} joined value list(s) match the declared value_delimiter"
 
 
 if __name__ == "__main__":
